@@ -544,7 +544,24 @@ func c19R3(p *Prog, r *Report) {
 						}
 					}
 				}
-				r.Check(adv == 1, "C19.R3", "Lancero: the channel number advances once per pair", p.InstrPos(names[1].in), "cnum++ after the pair", fmt.Sprintf("the channel number is advanced %d times per pair", adv))
+				if adv == 0 {
+					// closed form: the number is <first number of the column> + row, row being the
+					// counter of the loop the pair is stored in
+					pcn := NewPolyCtx(lp)
+					for sym, co := range pcn.Of(num) {
+						if !strings.HasPrefix(sym, "phi#") || co != 1 {
+							continue
+						}
+						if v, ok := pcn.symValue(sym); ok {
+							if ph, isPhi := v.(*ssa.Phi); isPhi {
+								if l := ivLoopAt(ph.Block()); l != nil && l.counter == ph && naturalLoopContains(ph.Block(), names[1].in.Block()) {
+									adv = 1
+								}
+							}
+						}
+					}
+				}
+				r.Check(adv == 1, "C19.R3", "Lancero: the channel number advances once per pair", p.InstrPos(names[1].in), "cnum++ after the pair (or first number + row)", fmt.Sprintf("the channel number is advanced %d times per pair", adv))
 				// the index advances between the two stores and after
 				r.Check(stripAdd(names[1].idx) == names[0].idx || stripAdd(stripConv(names[1].idx)) == names[0].idx, "C19.R3", "Lancero: the pair occupies consecutive stream indices", p.InstrPos(names[1].in), "index, index+1", "the two streams of a pair are not stored at index and index+1")
 			}
@@ -1228,6 +1245,108 @@ func c19More(p *Prog, r *Report) {
 					bad = "the row count given to the packer is not the bound of the loop over this group's rows"
 				}
 			}
+			// the column: an index that walks the columns (a loop counter, here or in the caller that
+			// hands it to this helper) or a constant below a constant column count
+			if call != nil && len(call.Call.Args) >= 4 && bad == "" {
+				colV, colsV := stripConv(call.Call.Args[1]), stripConv(call.Call.Args[3])
+				colFn := fn
+				up := func(v ssa.Value) (ssa.Value, *ssa.Function) {
+					f := fn
+					for i := 0; i < 2; i++ {
+						prm, isPrm := v.(*ssa.Parameter)
+						if !isPrm {
+							break
+						}
+						sites, all := p.staticCallSites(f)
+						if !all || len(sites) != 1 {
+							break
+						}
+						idx := -1
+						for j, q := range f.Params {
+							if q == prm {
+								idx = j
+							}
+						}
+						cc := CallOf(sites[0])
+						if idx < 0 || idx >= len(cc.Args) {
+							break
+						}
+						v = stripConv(cc.Args[idx])
+						f = sites[0].Parent()
+					}
+					return v, f
+				}
+				colV, colFn = up(colV)
+				okCol := false
+				if k, isC := constInt(colV); isC {
+					if kc, isC2 := constInt(colsV); isC2 && k >= 0 && k < kc {
+						okCol = true
+					}
+				}
+				if ph, isPhi := colV.(*ssa.Phi); isPhi {
+					if l := ivLoopAt(ph.Block()); l != nil && l.counter == ph {
+						okCol = true
+					}
+					for _, ref := range *ph.Referrers() {
+						if cmp, ok := ref.(*ssa.BinOp); ok && cmp.Op == token.LSS && cmp.X == ssa.Value(ph) && cmp.Block() == ph.Block() {
+							okCol = true
+						}
+					}
+				}
+				for _, l := range RangeLoops(colFn) {
+					if colV == l.Idx {
+						okCol = true
+					}
+				}
+				key := fmt.Sprintf("%s: the column of row/column code #%d walks the columns", FuncName(fn), n)
+				// positive evidence of a column that does not restart: the column count is a field of
+				// the element of a loop (one card), the column is the length of a table of the receiver
+				// that only grows while that loop runs
+				runaway := ""
+				if !okCol {
+					if lc, isCall := colV.(*ssa.Call); isCall {
+						if b, isB := lc.Call.Value.(*ssa.Builtin); isB && b.Name() == "len" {
+							if _, tf, _, okf := FieldOf(lc.Call.Args[0]); okf {
+								if ld, isLd := colsV.(*ssa.UnOp); isLd && ld.Op == token.MUL {
+									if fa, isFA := ld.X.(*ssa.FieldAddr); isFA {
+										base, colsFn := up(stripConv(fa.X))
+										for _, l := range RangeLoops(colsFn) {
+											if !l.IsElem(base) {
+												continue
+											}
+											reset := false
+											for _, hf := range recvHelpers(colsFn, 2) {
+												for _, st := range StoresTo(hf, "", tf) {
+													inL := hf != colsFn || l.Contains(st.Block())
+													if !inL {
+														continue
+													}
+													if c, isC := st.Val.(*ssa.Call); isC {
+														if bb, isB := c.Call.Value.(*ssa.Builtin); isB && bb.Name() == "append" {
+															continue
+														}
+													}
+													reset = true
+												}
+											}
+											if !reset {
+												runaway = fmt.Sprintf("the column is len(%s), a table that only grows while the loop at %s walks the cards, but the column count given with it (%s) is that of one card", tf, p.InstrPos(l.Header.Instrs[0]), st16(fa))
+											}
+										}
+									}
+								}
+							}
+						}
+					}
+				}
+				if runaway != "" {
+					r.Bad("C19.R1", key, p.InstrPos(in), runaway+": from the second card on every code carries a column beyond its own card's columns, and these codes go into the file headers")
+				} else if okCol {
+					r.OK("C19.R1", key, p.InstrPos(in), "a loop index (or a constant below a constant column count)")
+				} else {
+					r.Unk("C19.R1", key, p.InstrPos(in), "the column given to the packer is neither a loop index nor a constant: whether it stays below the column count given with it (and restarts for every card or group) is not decided")
+				}
+			}
 			r.Check(bad == "", "C19.R1", fmt.Sprintf("%s: row/column code #%d is packed from the row index and this group's own row count", FuncName(fn), n), p.InstrPos(in), "rcCode(row, col, bound of the row loop, cols)",
 				bad+": with groups of different sizes the decoded row count is not the group's, channels can carry a row number beyond the stated rows, and these values go into file headers")
 		})
@@ -1380,4 +1499,13 @@ func c19R6(p *Prog, r *Report) {
 	} else {
 		r.Unk("C19.R6", "(*LanceroSource).Configure tests whether a card is already listed", p.Pos(cfg.Pos()), "none of the known forms of a duplicate test (element comparison, seen-set, slices.Contains, sort+Compact) found in the configuration step: not decided whether a card listed twice is refused")
 	}
+}
+
+// st16: "Type.field" of a field address, for messages.
+func st16(fa *ssa.FieldAddr) string {
+	st := derefStruct(fa.X.Type())
+	if st == nil {
+		return "?"
+	}
+	return typeName(fa.X.Type()) + "." + st.Field(fa.Field).Name()
 }
